@@ -135,6 +135,30 @@ class FileObj:
     def readlines(self):
         return self.read().splitlines(keepends=True)
 
+    def __iter__(self):
+        while True:
+            ln = self.readline()
+            if not ln:
+                return
+            yield ln
+
+    def writelines(self, lines):
+        for ln in lines:
+            self.write(ln)
+
+    def flush(self):
+        pass
+
+    def close(self):
+        pass
+
+    def seek(self, pos, whence=0):
+        self.pos = pos if whence == 0 else (self.pos + pos if whence == 1 else len(self.w.fs.get(self.path, '')) + pos)
+        return self.pos
+
+    def tell(self):
+        return self.pos
+
     @property
     def name(self):
         return self.path
